@@ -46,22 +46,28 @@ RULE = ("cases come from one PRNG seeded by VERIF_SEED plus fixed catalogues: th
         "a key derivation or a codec; distinct = distinct request lines / predicate cases")
 CLAUSES = {
     "private then public = public derivation, every field (i < 2^31)":
-        "proved (pub_priv_child_consistent; zero child key: pub_priv_child_zero_key) — proved relative to GroupLaw "
-        "(the two facts about smul/sadd on G listed in Buidl.Proofs.HD.GroupLaw; to be discharged from Proofs/Secp256k1)",
+        "proved (pub_priv_child_consistent, pub_priv_child_converse, priv_pub_traverse_consistent; the zero child key / point at "
+        "infinity case is pub_priv_child_zero_key) — unconditional: the group-law fact ((a+b) mod n)G = bG + aG is "
+        "Buidl.HD.groupAdd, proved from C03's Buidl.Proofs.Secp256k1",
     "hardened derivation from a public key is refused":
         "proved (pub_child_hardened_reject, pub_childI_hardened_reject, pub_traverse_hardened_reject, pub_traverse_hardened_index_reject)",
     "path = components one by one":
         "proved (priv_traverse_append, pub_traverse_append, priv_walk_append, pub_walk_append, priv_traverse_is_fold, pub_traverse_is_fold)",
     "keys, chain codes, fingerprints, depth, child numbers = independent BIP32":
-        "proved (priv_child_eq_spec, priv_child_spec_invalid, pub_child_eq_spec, from_seed_eq_spec, fingerprint_eq_spec) under "
-        "I_L < n and k_i ≠ 0; plus Spec.BIP32 through the driver and the published vectors on every run",
+        "proved (priv_child_eq_spec, priv_child_fields_eq_spec, pub_child_eq_spec, from_seed_eq_spec, fingerprint_eq_spec) with the "
+        "explicit hypotheses I_L < n and K_i ≠ ∞ (BIP32 'invalid key', probability ≈ 2^-127); plus Spec.BIP32 through the driver and "
+        "the published vectors on every run",
     "xprv/xpub incl. SLIP-132 survive serialise/parse":
-        "proved (priv_parse_xprv, pub_parse_xpub, priv_serialize_eq_spec, pub_serialize_eq_spec, version_tables_eq_slip132) relative to the "
-        "Base58Check round trip (hypothesis B58RoundTrip, proved by C09) and, for public keys, to parse_sec ∘ sec = id on "
-        "curve points (hypothesis SecRoundTrip, C03)",
+        "proved (priv_parse_xprv, pub_parse_xpub, priv_xprv_defined, priv_serialize_eq_spec, pub_serialize_eq_spec, "
+        "version_tables_eq_slip132, priv_pub_point_valid) for every hash256 returning ≥ 4 bytes; the Base58Check round trip is "
+        "Buidl.HD.b58RoundTrip (from C09's decodeCombined_encodeBase58), parse_sec ∘ sec = id is C03's parsePoint_sec. "
+        "As coded, parse cannot recover signet/regtest (network becomes testnet) nor a non-default pub_version of a private key: "
+        "the theorem states exactly which record is returned (parsedPriv / parsedPub) and that it re-serialises to the same string",
     "blind_xpub = key at the combined path":
-        "proved (blind_xpub_spec, combine_paths_traverse_priv, combine_paths_traverse_pub, priv_pub_walk_consistent)",
-    "F08a": "F08a_witness (flagged model refuses M/0/1); pub_traverse_case_insensitive for the repaired code",
+        "proved (blind_xpub_spec, combine_paths_traverse_priv, combine_paths_traverse_pub, blind_xpub_is_key_at_combined_path)",
+    "F08a": "F08a_witness (the flagged model refuses every path starting with M); pub_traverse_upper_M / priv_traverse_upper_M for the repaired code",
+    "is_valid_bip32_path, secure_secret_path, child_to_path, parse_binary_path": "correspondence-only (modelled and compared on every run; "
+        "combine_bip32_paths enters the blinding theorems)",
 }
 TRUSTED = ["hmac_sha512, hash160 and hash256 are parameters of every theorem; the driver instantiates them with "
            "Buidl.Model.Hash (checked against hashlib by harness/hash_selftest.py and by every run of this check)",
